@@ -1,3 +1,556 @@
-//! C03 — not built yet.
-pub const BUILT: bool = false;
-pub fn run(_rep: &mut vx::Report) {}
+//! C03 — written files are structurally valid PDF.
+//!
+//! Space (enumerated): the authoring programs of C02 (`c02::prog`: page size × rotation ×
+//! metadata × bodies over the 10-call alphabet, 1–3 pages) × the 16 writer configurations, plus
+//!   * `names-and-strings`: documents whose user-chosen resource name (image XObject name) and
+//!     user-chosen strings (title, annotation contents, outline title, shown text, form-field
+//!     name and value) contain PDF delimiters / white space / `#` / non-ASCII characters;
+//!   * `encrypted`: 4 encryption strengths × all 16 configurations over small programs.
+//!
+//! Oracle: `refpdf::file::validate` reports nothing (header; every xref entry is the exact
+//! offset of `N G obj`; startxref → last section; /Size; stream /Length + EOL `endstream`; every
+//! reference resolves to an in-use object; token validity; no duplicate keys; /W /Index /N
+//! /First; /Root; /Encrypt + /ID iff encrypted, /Encrypt not in an object stream), and the
+//! library's own `ParseOptions::strict()` (recovery attempts = 0) opens the file and resolves
+//! every in-use object to the same kind of object, with the same dictionary keys, as the
+//! reference reader.
+//!
+//! Known defects are recognised by their exact signature only (and, where an equal-length
+//! repair exists, the repaired file is then held to the full oracle), so that any other
+//! damage in the same configurations still surfaces under its own key.
+use super::c02::{self, prog, slug};
+use oxidize_pdf::parser::{ParseOptions, PdfObject, PdfReader};
+use prog::{Cfg, Program};
+use refpdf::file::{PdfFile, XEntry};
+use refpdf::syntax::Obj;
+use serde_json::json;
+use std::io::Cursor;
+use vx::{Ctx, Explore, Report};
+
+pub const BUILT: bool = true;
+
+#[derive(Clone, Copy, Debug, PartialEq, Eq, Hash)]
+enum Strength {
+    Rc4_40,
+    Rc4_128,
+    Aes128,
+    Aes256,
+}
+const STRENGTHS: [Strength; 4] = [Strength::Rc4_40, Strength::Rc4_128, Strength::Aes128, Strength::Aes256];
+const USER_PW: &str = "user";
+const OWNER_PW: &str = "owner";
+
+fn lib_strength(s: Strength) -> oxidize_pdf::document::EncryptionStrength {
+    use oxidize_pdf::document::EncryptionStrength as E;
+    match s {
+        Strength::Rc4_40 => E::Rc4_40bit,
+        Strength::Rc4_128 => E::Rc4_128bit,
+        Strength::Aes128 => E::Aes128,
+        Strength::Aes256 => E::Aes256,
+    }
+}
+
+/// Write `doc` under `cfg` with the deterministic byte source installed (file id, salts, IVs).
+fn write_doc(mut doc: oxidize_pdf::Document, cfg: Cfg) -> Result<Vec<u8>, String> {
+    oxidize_pdf::verif_hooks::seed_rng(Some(0x5eed));
+    let r = vx::guard(|| doc.to_bytes_with_config(cfg.writer()).map_err(|e| format!("writer error: {e}")));
+    oxidize_pdf::verif_hooks::seed_rng(None);
+    match r {
+        Ok(r) => r,
+        Err(p) => Err(format!("writer panic: {p}")),
+    }
+}
+
+fn kind_of_lib(o: &PdfObject) -> &'static str {
+    match o {
+        PdfObject::Null => "null",
+        PdfObject::Boolean(_) => "bool",
+        PdfObject::Integer(_) => "int",
+        PdfObject::Real(_) => "real",
+        PdfObject::String(_) => "string",
+        PdfObject::Name(_) => "name",
+        PdfObject::Array(_) => "array",
+        PdfObject::Dictionary(_) => "dict",
+        PdfObject::Stream(_) => "stream",
+        PdfObject::Reference(..) => "ref",
+    }
+}
+
+/// `ParseOptions::strict()`: open, unlock if needed, resolve every in-use object of the
+/// reference reader's cross-reference view; each must come back as the same kind of object
+/// with the same dictionary keys. Returns the list of complaints.
+fn strict_open_and_resolve(bytes: &[u8], file: &PdfFile, password: Option<&str>) -> Vec<String> {
+    let r = vx::guard(|| {
+        let mut out = Vec::new();
+        let mut reader = match PdfReader::new_with_options(Cursor::new(bytes), ParseOptions::strict()) {
+            Ok(r) => r,
+            Err(e) => return vec![format!("open: {e}")],
+        };
+        if reader.is_encrypted() {
+            if let Some(pw) = password {
+                if let Err(e) = reader.unlock(pw) {
+                    return vec![format!("unlock: {e}")];
+                }
+            }
+        }
+        for (&num, e) in &file.xref {
+            let gen = match e {
+                XEntry::Free { .. } => continue,
+                XEntry::InUse { gen, .. } => *gen,
+                XEntry::Compressed { .. } => 0,
+            };
+            let want = file.get(num);
+            match reader.get_object(num, gen) {
+                Ok(o) => {
+                    let (wk, gk) = (want.type_name(), kind_of_lib(o));
+                    if wk != gk {
+                        out.push(format!("object {num}: strict parser returns a {gk}, the reference reader a {wk}"));
+                        continue;
+                    }
+                    if let (Some(wd), Some(gd)) = (want.as_dict(), match o {
+                        PdfObject::Dictionary(d) => Some(d),
+                        PdfObject::Stream(s) => Some(&s.dict),
+                        _ => None,
+                    }) {
+                        let mut wkeys: Vec<String> = wd.keys().map(|k| String::from_utf8_lossy(k).into_owned()).collect();
+                        let mut gkeys: Vec<String> = gd.0.keys().map(|k| k.0.clone()).collect();
+                        wkeys.sort();
+                        gkeys.sort();
+                        if wkeys != gkeys {
+                            out.push(format!("object {num}: strict parser sees keys {gkeys:?}, the reference reader {wkeys:?}"));
+                        }
+                    }
+                }
+                Err(e) => out.push(format!("object {num}: {e}")),
+            }
+        }
+        out
+    });
+    match r {
+        Ok(v) => v,
+        Err(p) => vec![format!("panic: {p}")],
+    }
+}
+
+#[derive(Default)]
+struct Verdict {
+    /// (key, detail)
+    fails: Vec<(String, String)>,
+    /// classes of what happened, for the outcome hash
+    classes: Vec<String>,
+}
+impl Verdict {
+    fn fail(&mut self, key: impl Into<String>, detail: impl Into<String>) {
+        let k = key.into();
+        self.classes.push(k.clone());
+        self.fails.push((k, detail.into()));
+    }
+}
+
+/// The full structural oracle for one written file.
+/// `encrypted`: Some(user password) when the program asked for encryption.
+fn check_file(bytes: &[u8], cfg: Cfg, encrypted: Option<&str>, tag: &str) -> Verdict {
+    let mut v = Verdict::default();
+    let mut bytes = std::borrow::Cow::Borrowed(bytes);
+
+    // ---- known defect 1: raw xref stream that declares /FlateDecode. Exact signature, then
+    // the equal-length repair lets the rest of the file be held to the whole oracle.
+    if cfg.xref_stream && !cfg.compress {
+        if let Some(fixed) = prog::repair_undeclared_raw_xref_stream(&bytes) {
+            let orig = refpdf::file::validate(&bytes);
+            if orig.len() == 1 && orig[0].starts_with("unreadable: xref stream decode") {
+                let strict = match vx::guard(|| PdfReader::new_with_options(Cursor::new(&bytes[..]), ParseOptions::strict()).map(|_| ()).map_err(|e| e.to_string())) {
+                    Ok(Ok(())) => "opens".to_string(),
+                    Ok(Err(e)) => e,
+                    Err(p) => format!("panic {p}"),
+                };
+                v.fail(
+                    "C03/uncompressed-xref-stream-declares-flatedecode",
+                    format!("{tag}: validator: {:?}; strict parser: {strict}; the xref stream dictionary says /Filter /FlateDecode but the data is the raw Size×ΣW table", orig[0].trim()),
+                );
+                bytes = std::borrow::Cow::Owned(fixed);
+            }
+        }
+    }
+
+    let mut file = match PdfFile::parse(&bytes) {
+        Ok(f) => f,
+        Err(e) => {
+            v.fail(format!("C03/unreadable:{}", slug(&e)), format!("{tag}: {e}"));
+            let s = strict_open_and_resolve_no_ref(&bytes);
+            v.classes.push(format!("strict:{}", s.is_ok()));
+            return v;
+        }
+    };
+
+    // known defect 2 (object streams + classic table): members of the object streams = what the
+    // table lists as free
+    let classic_members: Option<Vec<u32>> = if cfg.obj_streams && !cfg.xref_stream { prog::objstm_with_classic_xref_signature(&file) } else { None };
+
+    // ---- encryption entries of the trailer (§7.5.5 Table 15: /Encrypt, and /ID required with it)
+    let has_encrypt = file.trailer.get("Encrypt").is_some();
+    let has_id = file.trailer.get("ID").is_some();
+    let mut unlocked = None;
+    match encrypted {
+        Some(pw) => {
+            if !has_encrypt && !has_id && cfg.xref_stream {
+                // known defect 3: write_xref_stream builds the trailer entries from
+                // XRefStreamWriter::create_dictionary, which knows only /Root and /Info
+                v.fail(
+                    "C03/xref-stream-trailer-lacks-encrypt-and-id",
+                    format!("{tag}: encryption was requested, objects are enciphered, but the cross-reference stream dictionary has neither /Encrypt nor /ID (keys: {:?})", file.trailer.keys().map(|k| String::from_utf8_lossy(k).into_owned()).collect::<Vec<_>>()),
+                );
+            } else if !has_encrypt || !has_id {
+                v.fail("C03/encrypted-file-trailer-incomplete", format!("{tag}: /Encrypt present: {has_encrypt}, /ID present: {has_id}"));
+            } else {
+                let mut enc_in_objstm = false;
+                if let Some(Obj::Ref(n, _)) = file.trailer.get("Encrypt") {
+                    if matches!(file.xref.get(n), Some(XEntry::Compressed { .. })) || classic_members.as_ref().map(|m| m.contains(n)).unwrap_or(false) {
+                        // known defect 6: ObjectStreamWriter::can_compress does not exclude the encryption dictionary
+                        enc_in_objstm = true;
+                        v.fail("C03/encryption-dictionary-inside-object-stream", format!("{tag}: /Encrypt {n} 0 R is stored in an object stream (§7.5.7: the encryption dictionary shall not be)"));
+                    }
+                }
+                match file.trailer.get("ID").map(|i| file.resolve(i)) {
+                    Some(Obj::Array(a)) if a.len() == 2 && a.iter().all(|x| matches!(x, Obj::Str(_))) => {}
+                    other => v.fail("C03/trailer-id-malformed", format!("{tag}: /ID is {other:?}")),
+                }
+                if !(enc_in_objstm && classic_members.is_some()) {
+                    match refpdf::crypto::unlock_ex(&mut file, pw.as_bytes()) {
+                        Ok(u) => unlocked = Some(u),
+                        Err(e) => v.fail(format!("C03/encryption-dictionary-unusable:{}", slug(&e)), format!("{tag}: {e}")),
+                    }
+                }
+            }
+        }
+        None => {
+            if has_encrypt {
+                v.fail("C03/unencrypted-file-has-encrypt-entry", format!("{tag}: trailer has /Encrypt although no encryption was requested"));
+            }
+        }
+    }
+
+    // ---- the strict validator
+    let mut issues = refpdf::file::validate_file(&file);
+    let mut skip_strict = false;
+    {
+        // known defect 2: object streams + classic table. Signature: the members of the object
+        // streams are exactly what the table lists as free; every message explained by that
+        // (and only those) is folded into the one known key.
+        if let Some(members) = classic_members.clone() {
+            let explained = |m: &str| -> bool {
+                if m == "/Root does not reference a /Type /Catalog dictionary" {
+                    return matches!(file.trailer.get("Root"), Some(Obj::Ref(n, 0)) if members.contains(n));
+                }
+                if let Some(rest) = m.strip_prefix("object stream ") {
+                    // "object stream S member i is object n, but the xref has Some(Free …"
+                    if let Some(pos) = rest.find(" is object ") {
+                        let n: Option<u32> = rest[pos + 11..].split(',').next().and_then(|s| s.trim().parse().ok());
+                        return rest.contains("but the xref has Some(Free") && n.map(|n| members.contains(&n)).unwrap_or(false);
+                    }
+                }
+                if let Some(pos) = m.find(" references ") {
+                    // "<who> references n g R, which is not an in-use object"
+                    let mut it = m[pos + 12..].split(' ');
+                    let n: Option<u32> = it.next().and_then(|s| s.parse().ok());
+                    let g: Option<u32> = it.next().and_then(|s| s.parse().ok());
+                    return m.ends_with("which is not an in-use object") && g == Some(0) && n.map(|n| members.contains(&n)).unwrap_or(false);
+                }
+                false
+            };
+            let (known, rest): (Vec<String>, Vec<String>) = issues.into_iter().partition(|m| explained(m));
+            if !known.is_empty() {
+                v.fail(
+                    "C03/objstm-with-classic-xref-unreadable",
+                    format!("{tag}: objects {members:?} are stored in an object stream but a classic table cannot point into it: {} validator messages, first: {:?}", known.len(), known[0]),
+                );
+                skip_strict = true; // the strict parser is expected to reject this file
+            }
+            issues = rest;
+        }
+    }
+    for m in &issues {
+        v.fail(format!("C03/invalid:{}", slug(m)), format!("{tag}: {m}"));
+    }
+
+    // ---- after unlocking: every string / stream must decipher, pages must be readable
+    if let Some(u) = &unlocked {
+        for n in file.live_objects() {
+            let _ = file.get(n);
+        }
+        // (whether the deciphered page content is the program's content is C05's question)
+        let pr = u.problems.lock().unwrap();
+        if let Some(p) = pr.first() {
+            v.fail(format!("C03/undecipherable-data:{}", slug(p)), format!("{tag}: {} problems, first: {p}", pr.len()));
+        }
+    }
+
+    // ---- the library's strict parser
+    if !skip_strict {
+        // when the trailer announces no encryption the library reads the file as plain
+        let pw = if has_encrypt { encrypted } else { None };
+        // compare with the objects as stored (a second, never unlocked view of the file)
+        let raw_view;
+        let view = if unlocked.is_some() {
+            raw_view = PdfFile::parse(&bytes).expect("parsed before");
+            &raw_view
+        } else {
+            &file
+        };
+        let complaints = strict_open_and_resolve(&bytes, view, pw);
+        let enc_obj = match file.trailer.get("Encrypt") {
+            Some(Obj::Ref(n, _)) => Some(*n),
+            _ => None,
+        };
+        for m in complaints.iter().take(3) {
+            // known defect 5: PdfReader::get_object runs the encryption dictionary itself through
+            // decrypt_object_if_needed; with AES its /O /U strings then fail to unpad
+            if let Some(n) = enc_obj {
+                if m.starts_with(&format!("object {n}: ")) && m.contains("Failed to decrypt string") {
+                    v.fail("C03/strict-parser-deciphers-the-encryption-dictionary", format!("{tag}: {m}"));
+                    continue;
+                }
+            }
+            v.fail(format!("C03/strict-parser:{}", slug(m)), format!("{tag}: {m}"));
+        }
+        v.classes.push(format!("strict:{}", complaints.is_empty()));
+    }
+    v
+}
+
+fn strict_open_and_resolve_no_ref(bytes: &[u8]) -> Result<(), String> {
+    match vx::guard(|| PdfReader::new_with_options(Cursor::new(bytes), ParseOptions::strict()).map(|_| ()).map_err(|e| e.to_string())) {
+        Ok(r) => r,
+        Err(p) => Err(format!("panic: {p}")),
+    }
+}
+
+fn apply(c: &mut Ctx, v: Verdict) -> u64 {
+    let h = vx::h64(&v.classes);
+    for (k, d) in v.fails {
+        c.fail(k, d);
+    }
+    h
+}
+
+fn run_program(c: &mut Ctx, p: &Program, cfgs: &[Cfg]) {
+    c.input(vx::h64(p));
+    if !p.pages.iter().all(|pg| pg.body.is_empty()) {
+        c.nontrivial();
+    }
+    let mut oh = 0u64;
+    for cfg in cfgs {
+        let tag = format!("{} program={}", cfg.label(), p.short());
+        match prog::write(p, *cfg) {
+            Ok(bytes) => {
+                let v = check_file(&bytes, *cfg, None, &tag);
+                oh = vx::hmix(oh, apply(c, v));
+            }
+            Err(e) => {
+                c.fail(format!("C03/write-failed:{}", slug(&e)), format!("{tag}: {e}"));
+                oh = vx::hmix(oh, 1);
+            }
+        }
+    }
+    c.outcome(oh);
+    c.sample(json!({"program": p.json(), "configurations": cfgs.len()}));
+}
+
+// ---------------------------------------------------------------------- names and strings
+
+/// user-chosen resource names; index 0 is the control
+const NAMES: [&str; 10] = ["Im1", "Im 1", "Im/1", "Im#1", "Im(1", "Im)1", "Im<1>", "Im[1]", "Im%1", "Im{1}"];
+/// user-chosen strings; index 0 is the control
+const STRINGS: [&str; 9] = ["plain", "a(b", "a)b", "a\\b", "((", "a\rb", "a\nb", "\u{e9}\u{20ac}", "a)/Evil 1 (b"];
+
+fn needs_escape(name: &str) -> bool {
+    name.bytes().any(|b| refpdf::syntax::is_ws(b) || refpdf::syntax::is_delim(b) || b == b'#' || !(0x21..=0x7e).contains(&b))
+}
+
+fn build_named(name: &str, s: &str) -> Result<oxidize_pdf::Document, String> {
+    use oxidize_pdf::annotations::TextAnnotation;
+    use oxidize_pdf::forms::{TextField, Widget};
+    use oxidize_pdf::geometry::{Point, Rectangle};
+    use oxidize_pdf::graphics::Image;
+    use oxidize_pdf::structure::{Destination, OutlineItem, OutlineTree, PageDestination};
+    use oxidize_pdf::text::Font;
+    use oxidize_pdf::{Document, Page};
+    let mut doc = Document::new();
+    doc.set_title(s);
+    doc.set_author(s);
+    let mut page = Page::a4();
+    page.text().set_font(Font::Helvetica, 12.0).at(50.0, 700.0).write(s).map_err(|e| format!("text: {e}"))?;
+    let img = Image::from_gray_data(prog::GRAY_PIXELS.to_vec(), 2, 2).map_err(|e| format!("image: {e}"))?;
+    page.add_image(name, img);
+    page.draw_image(name, 100.0, 400.0, 64.0, 32.0).map_err(|e| format!("draw_image: {e}"))?;
+    page.add_annotation(TextAnnotation::new(Point::new(100.0, 200.0)).with_contents(s).to_annotation());
+    let widget = Widget::new(Rectangle::new(Point::new(50.0, 600.0), Point::new(250.0, 620.0)));
+    page.add_form_widget(widget.clone());
+    doc.enable_forms().add_text_field(TextField::new(s).with_default_value(s), widget, None).map_err(|e| format!("form field: {e}"))?;
+    let mut outline = OutlineTree::new();
+    outline.add_item(OutlineItem::new(s).with_destination(Destination::fit(PageDestination::PageNumber(0))));
+    doc.set_outline(outline);
+    doc.add_page(page);
+    Ok(doc)
+}
+
+/// Does `/<raw name>` (the name written without any #xx escape) occur in the file, looking also
+/// inside Flate-compressed streams?
+fn raw_name_token_present(bytes: &[u8], name: &str) -> bool {
+    let mut pat = vec![b'/'];
+    pat.extend_from_slice(name.as_bytes());
+    let has = |hay: &[u8]| hay.windows(pat.len()).any(|w| w == pat.as_slice());
+    if has(bytes) {
+        return true;
+    }
+    let mut i = 0;
+    while let Some(p) = refpdf::file::find_first(bytes, b"stream\n", i) {
+        let start = p + 7;
+        let Some(end) = refpdf::file::find_first(bytes, b"\nendstream", start) else { break };
+        if let Ok(d) = refpdf::filters::flate_decode(&bytes[start..end]) {
+            if has(&d) {
+                return true;
+            }
+        }
+        i = end + 10;
+    }
+    false
+}
+
+fn run_named(c: &mut Ctx, thorough: bool) {
+    let ni = c.choose("name", NAMES.len());
+    let si = c.choose("string", STRINGS.len());
+    let (name, s) = (NAMES[ni], STRINGS[si]);
+    c.input(vx::h64(&(name, s)));
+    if ni != 0 || si != 0 {
+        c.nontrivial();
+    }
+    // object-stream configurations (0.3–3 s per file) only along the two axes, at version 1.7 (quick)
+    let cfgs: Vec<Cfg> = Cfg::all().into_iter().filter(|cf| !cf.obj_streams || ((ni == 0 || si == 0) && (thorough || (!cf.v14 && cf.compress)))).collect();
+    let mut oh = 0u64;
+    for cfg in &cfgs {
+        let tag = format!("{} name={name:?} string={s:?}", cfg.label());
+        let bytes = match build_named(name, s).and_then(|d| write_doc(d, *cfg)) {
+            Ok(b) => b,
+            Err(e) => {
+                c.fail(format!("C03/write-failed:{}", slug(&e)), format!("{tag}: {e}"));
+                continue;
+            }
+        };
+        let mut v = check_file(&bytes, *cfg, None, &tag);
+        // known defect 4: names are written verbatim. Signature: the name needs #xx escapes, the
+        // unescaped token is in the file, and the same document with the control name is clean
+        // (up to the same known keys) — then everything this file adds is folded into one key.
+        if needs_escape(name) && !v.fails.is_empty() && raw_name_token_present(&bytes, name) {
+            let control = build_named(NAMES[0], s).and_then(|d| write_doc(d, *cfg)).map(|b| check_file(&b, *cfg, None, &tag));
+            if let Ok(cv) = control {
+                let control_keys: Vec<&String> = cv.fails.iter().map(|f| &f.0).collect();
+                let (same, extra): (Vec<_>, Vec<_>) = v.fails.drain(..).partition(|f| control_keys.contains(&&f.0));
+                v.fails = same;
+                if !extra.is_empty() {
+                    v.fails.push((
+                        "C03/name-written-unescaped".to_string(),
+                        format!("{tag}: the token /{name} is in the file verbatim; {} complaints follow from it, first: {} — {}", extra.len(), extra[0].0, extra[0].1),
+                    ));
+                }
+            }
+        }
+        oh = vx::hmix(oh, apply(c, v));
+    }
+    c.outcome(oh);
+    c.sample(json!({"image_name": name, "string": s, "configurations": cfgs.len()}));
+}
+
+// ---------------------------------------------------------------------- encrypted
+
+fn run_encrypted(c: &mut Ctx, thorough: bool) {
+    let strength = *c.pick_from("strength", &STRENGTHS);
+    let p = prog::choose_single_page(c, 1);
+    c.input(vx::h64(&(strength, &p)));
+    c.nontrivial();
+    let plain = !p.metadata && p.pages[0].size == 0 && p.pages[0].rot == 0;
+    let small = p.pages[0].body.is_empty() || p.pages[0].body == [prog::Call::HelvText] || p.pages[0].body == [prog::Call::TextAnnot];
+    let cfgs: Vec<Cfg> = Cfg::all().into_iter().filter(|cf| !cf.obj_streams || (plain && (thorough || (small && !cf.v14 && cf.compress)))).collect();
+    let mut oh = 0u64;
+    for cfg in &cfgs {
+        let tag = format!("{} encryption={strength:?} program={}", cfg.label(), p.short());
+        let doc = prog::build(&p).map(|mut d| {
+            d.set_encryption(oxidize_pdf::document::DocumentEncryption::new(USER_PW, OWNER_PW, oxidize_pdf::encryption::Permissions::all(), lib_strength(strength)));
+            d
+        });
+        let bytes = match doc.and_then(|d| write_doc(d, *cfg)) {
+            Ok(b) => b,
+            Err(e) => {
+                c.fail(format!("C03/write-failed:{}", slug(&e)), format!("{tag}: {e}"));
+                continue;
+            }
+        };
+        let v = check_file(&bytes, *cfg, Some(USER_PW), &tag);
+        oh = vx::hmix(oh, apply(c, v));
+    }
+    c.outcome(oh);
+    c.sample(json!({"strength": format!("{strength:?}"), "program": p.json(), "configurations": cfgs.len()}));
+}
+
+fn probe() {
+    let p = Program { pages: vec![prog::PageProg { size: 0, rot: 0, body: vec![prog::Call::HelvText] }], metadata: false };
+    for strength in STRENGTHS {
+        for ci in [0usize, 4] {
+            let cfg = Cfg::from_index(ci);
+            let mut d = prog::build(&p).unwrap();
+            d.set_encryption(oxidize_pdf::document::DocumentEncryption::new(USER_PW, OWNER_PW, oxidize_pdf::encryption::Permissions::all(), lib_strength(strength)));
+            let bytes = write_doc(d, cfg).unwrap();
+            let path = format!("/verif/.scratch/C03-w2/enc-{strength:?}-{ci}.pdf");
+            std::fs::write(&path, &bytes).unwrap();
+            let v = check_file(&bytes, cfg, Some(USER_PW), "probe");
+            eprintln!("{path}: {} fails", v.fails.len());
+            for (k, dd) in v.fails.iter().take(8) {
+                eprintln!("   {k} :: {}", vx::one_line(dd, 300));
+            }
+        }
+    }
+}
+
+pub fn run(rep: &mut Report) {
+    c02::tune_allocator();
+    if std::env::var("C03_PROBE").is_ok() {
+        probe();
+        std::process::exit(0);
+    }
+    let thorough = rep.tier.is_thorough();
+    rep.rule(
+        "one execution = one document (authoring program / named document / encrypted program) written under the 8 \
+         writer configurations without object streams and, for the stated sub-family, the 8 with object streams; every \
+         file goes through the strict validator and the library's strict parser; non-trivial = non-empty body, a \
+         non-control name or string, or encryption; distinct = distinct document",
+    );
+    rep.assume("refpdf::file::validate implements ISO 32000-1 §7.5 (validated against the qpdf-written fixture interop_base.pdf, which must pass, and hand-damaged files in its unit tests)");
+    rep.assume("a raw CR inside a literal string is syntactically valid (§7.3.4.2) and is not reported here (C09/C30 cover the value)");
+    rep.assume("names with raw bytes above 0x7e are excluded from the name alphabet: §7.3.5 only recommends #xx for them");
+    rep.note("objstm_family", json!("object-stream configurations: programs without size/rotation/metadata deviation with one page and a body ≤ 1 (thorough ≤ 2), two pages with equal bodies ≤ 1 (thorough: any bodies ≤ 1), thorough also three pages with equal bodies ≤ 1; names-and-strings: control name or control string (quick: compressed, version 1.7 only); encrypted: empty / one text / one annotation body (quick: compressed, version 1.7 only; thorough: all bodies ≤ 1)"));
+    let dev = 1;
+    let single_len = if thorough { 4 } else { 3 };
+
+    // development aid: C03_SECTIONS=names,encrypted runs only the named sections
+    let on = |s: &str| std::env::var("C03_SECTIONS").map(|v| v.split(',').any(|x| s.starts_with(x))).unwrap_or(true);
+    if on("single-page") {
+        rep.explore("single-page", Explore::dev(dev), |c: &mut Ctx| {
+            let p = prog::choose_single_page(c, single_len);
+            let cfgs = c02::configs_for(&p, thorough);
+            run_program(c, &p, &cfgs);
+        });
+    }
+    if on("multi-page") {
+    rep.explore("multi-page", Explore::dev(if thorough { 1 } else { 0 }), |c: &mut Ctx| {
+        let p = prog::choose_multi_page(c, 2, 3, 1);
+        let cfgs = c02::configs_for(&p, thorough);
+        run_program(c, &p, &cfgs);
+    });
+    }
+    if on("names-and-strings") {
+        rep.explore("names-and-strings", Explore::full(), |c: &mut Ctx| run_named(c, thorough));
+    }
+    if on("encrypted") {
+        rep.explore("encrypted", Explore::dev(1), |c: &mut Ctx| run_encrypted(c, thorough));
+    }
+}
